@@ -300,7 +300,8 @@ def _pad_face_connections(
                         # TODO: Can we do this with an assignment in xarray? Maybe not important yet.
         faces.append(target_da)
 
-    da_padded = xr.concat(faces, dim=facedim)
+    # (a halo taken from the other vector component must not lend its name to the result)
+    da_padded = xr.concat(faces, dim=facedim).rename(da.name)
 
     # trim back to original shape
     def _trim_expanded_padding_width(da, grid, padding_width, padding_width_expanded):
